@@ -580,6 +580,15 @@ recompute_factor(cholmod_sparse *A, cholmod_factor *L, long *iPerm,
 
 		if ( Lp[Lnext[Lrows[i]]] - Lp[Lrows[i]] < nz ) {
 			cholmod_l_reallocate_column(Lrows[i], nz, L, c);
+			/*
+			 * Growing a column can move the arrays of L, and
+			 * puts the column at the end of the list.
+			 */
+			Lp =    (long*)(L->p);
+			Lnz =   (long*)(L->nz);
+			Li =    (long*)(L->i);
+			Lnext = (long*)(L->next);
+			Lx =    (double*)(L->x);
 #if 0
 			printf("L->nz[%ld] <= %ld, L_F->nz[%d] = %ld\n", 
 		    	    Lrows[i], Lp[Lnext[Lrows[i]]] - Lp[Lrows[i]],
